@@ -35,7 +35,9 @@ def run_unit(desc):
     """executed in a worker process"""
     t0 = time.time()
     from . import loader as _loader
+    from . import interp as _interp
     _loader.ALL_FILES_READ.clear()
+    _interp.LINES_EXECUTED.clear()
     try:
         mod = importlib.import_module(f"rxvc.{desc['runner']}")
         rep = mod.run_unit(desc)
@@ -45,7 +47,47 @@ def run_unit(desc):
     rep["seconds"] = round(time.time() - t0, 3)
     rep["desc"] = desc
     rep["files_read"] = dict(_loader.ALL_FILES_READ)
+    rep["lines_executed"] = sorted(x for x in _interp.LINES_EXECUTED if isinstance(x[0], str) and x[0].startswith("reactivex/"))
     return rep
+
+
+def statement_coverage(functions, reports):
+    """which statements of the functions under contract the symbolic execution of this run reached (a meta-check against harness scenarios
+    that skip a branch: an unreached statement is one no symbolically executed obligation speaks about - it may still be covered by an AST
+    analysis of the same check, or by a native table)"""
+    import ast as _ast
+    from .loader import Loader
+    hit = {}
+    for r in reports:
+        for f, ln in r.get("lines_executed", []):
+            hit.setdefault(f, set()).add(ln)
+    ld = Loader()
+    total = reached = 0
+    holes = []
+    for key in sorted(functions):
+        if "::" not in key:
+            continue
+        rel, qual = key.split("::", 1)
+        if rel not in hit or not rel.endswith(".py"):
+            continue  # decided by an AST analysis / not interpreted in this check
+        try:
+            node = ld.find(rel, qual.split("/")[0].split("[")[0].split("+")[0])
+            src = ld.load_file(rel).src.splitlines()
+        except Exception:  # noqa: BLE001
+            continue
+        for st in _ast.walk(node):
+            if not isinstance(st, _ast.stmt) or isinstance(st, (_ast.FunctionDef, _ast.AsyncFunctionDef, _ast.ClassDef, _ast.Import, _ast.ImportFrom,
+                                                                _ast.Global, _ast.Nonlocal, _ast.Pass)):
+                continue
+            if isinstance(st, _ast.Expr) and isinstance(st.value, _ast.Constant):
+                continue  # docstring
+            total += 1
+            if st.lineno in hit[rel]:
+                reached += 1
+            else:
+                holes.append(f"{rel}:{st.lineno}: {src[st.lineno - 1].strip()[:90]}")
+    holes = sorted(set(holes))
+    return {"statements": total, "reached_by_symbolic_execution": reached, "not_reached": holes[:80], "not_reached_total": len(holes)}
 
 
 def native(args, timeout=300):
@@ -159,6 +201,21 @@ class Check:
                 drifted.append({"unit": unit, "reason": rep["unsupported"]})
                 # bounded stand-in decides this unit for this run
                 st = rep.get("standin")
+                if st is None and rep.get("replayable"):
+                    # the unit names a native runner for its replays: its bounded table stands in (labelled bounded)
+                    ri = rep["replayable"]
+                    h_ = hashlib.sha256(unit.encode()).hexdigest()[:8]
+                    opts = {"max_len": 3, "replay_path": os.path.join(REPLAY_DIR, f"{self.prop}-standin-{h_}.py"), "prop": self.prop,
+                            "oid": unit + "/bounded-standin", "budget_s": 200}
+                    opts.update(ri.get("opts", {}))
+                    r_, err_ = native([os.path.join(VERIF, "rxvc", ri["runner"]), ri.get("mode", "replay"), ri["module"], ri["name"], json.dumps(opts)], timeout=600)
+                    if r_ is not None:
+                        st = rep["standin"] = r_
+                        bounded.append({"function": unit, "bound": f"{ri['runner']} {ri['name']}: the runner's bounded table (see its docstring)", "cases": r_.get("cases", 0),
+                                        "mismatches": len(r_.get("found", [])), "role": "stand-in (out of subset)"})
+                    else:
+                        undecided.append({"unit": unit, "why": "out of subset and the stand-in did not run: " + str(err_)[:200]})
+                        continue
                 if st is None:
                     undecided.append({"unit": unit, "why": "out of subset and no bounded stand-in: " + rep["unsupported"]})
                 elif st.get("found"):
@@ -250,6 +307,7 @@ class Check:
                 "solver_seconds": round(solver_s, 3),
                 "functions_under_contract": functions,
                 "repo_files_parsed_this_run": {k: v for r in reports for k, v in sorted(r.get("files_read", {}).items())},
+                "statement_coverage_of_functions_under_contract": statement_coverage(functions, reports),
                 "units": [{"unit": r["unit"], "kind": r.get("kind"), "obligations": len(r.get("results", [])),
                            "seconds": r.get("seconds"), "out_of_subset": r.get("unsupported")} for r in reports],
                 "samples": samples,
